@@ -361,6 +361,7 @@ func checkC18(c *Ctx) {
 	checkJSONTags(c, "C18.R4.json-tags", scan)
 	checkImportsIndexed(c, "C18.R5.imports-indexed", scan)
 	checkValueParsers(c, scan)
+	checkStrfmtNames(c, gen)
 	checkPlatformSuffixes(c, "C18.R6.file-suffixes", gen)
 	checkExclusiveMarkers(c, ev)
 }
@@ -610,9 +611,32 @@ func checkDocLineFlags(c *Ctx, ev *tmpl.Evaluator) {
 			if inner == nil {
 				continue // unconditional text (titles, descriptions)
 			}
-			env := map[string]bool{}
-			tmpl.ParseCond(inner.Pipe).Atoms(env)
-			c.Check(tmpl.StackCond(gs).Eval(env), rule, key, l.Tree.PosStr(oc.Pos), "emitted whenever "+strings.TrimSpace(inner.Pipe)+" is set",
+			own := map[string]bool{}
+			tmpl.ParseCond(inner.Pipe).Atoms(own)
+			all := map[string]bool{}
+			stack := tmpl.StackCond(gs)
+			stack.Atoms(all)
+			var others []string
+			for a := range all {
+				if !own[a] {
+					others = append(others, a)
+				}
+			}
+			sort.Strings(others)
+			holds := len(others) <= 12
+			for mask := 0; holds && mask < 1<<len(others); mask++ {
+				env := map[string]bool{}
+				for a := range own {
+					env[a] = true
+				}
+				for i, a := range others {
+					env[a] = mask&(1<<i) != 0
+				}
+				if !stack.Eval(env) {
+					holds = false
+				}
+			}
+			c.Check(holds, rule, key, l.Tree.PosStr(oc.Pos), "emitted whenever "+strings.TrimSpace(inner.Pipe)+" is set, whatever the other flags are",
 				fmt.Sprintf("the line is emitted under [%s]: a schema that sets only %s loses the keyword in the generated doc comment, and with it in the scanned spec", tmpl.GuardString(gs), strings.TrimSpace(inner.Pipe)))
 		}
 	}
@@ -766,6 +790,85 @@ func checkValueParsers(c *Ctx, scan *packages.Package) {
 			seen[l] = true
 			c.Check(kindOf[l] == tf[0], rule, "codescan.parseValueFromSchema › "+l, c.posOf(scan, fd.Pos()), "parsed as "+tf[0],
 				fmt.Sprintf("a schema of type %s whose type name is %q (Go %s) has no case parsing %s values (found: %q): enum, default and example values of such a property are kept as strings", tf[0], l, goT, tf[0], kindOf[l]))
+		}
+	}
+}
+
+
+// checkStrfmtNames: a format mapped to a strfmt type comes back from the scanner under the name
+// that type is registered with in strfmt's default registry (the scanner reads the swagger:strfmt
+// annotation of the type). Each row `format → strfmt.T` of formatMapping must therefore name the
+// type that strfmt registers under that format name (aliases: date-time = datetime, objectid =
+// ObjectId = bsonobjectid).
+func checkStrfmtNames(c *Ctx, gen *packages.Package) {
+	rule := "C18.R3.strfmt-names"
+	c.Rule(rule, "every `format → strfmt.T` row of the generator's formatMapping names the type that go-openapi/strfmt registers under that format", 20)
+	deps := c.ProgDeps("./generator")
+	sf := deps.Pkg("github.com/go-openapi/strfmt")
+	if sf == nil || len(sf.Syntax) == 0 {
+		c.Anchor(rule, "github.com/go-openapi/strfmt", "syntax of the dependency not loaded")
+		return
+	}
+	registry := map[string]string{}
+	for _, f := range sf.Syntax {
+		ast.Inspect(f, func(n ast.Node) bool {
+			call, ok := n.(*ast.CallExpr)
+			if !ok || len(call.Args) < 2 {
+				return true
+			}
+			se, ok := call.Fun.(*ast.SelectorExpr)
+			if !ok || se.Sel.Name != "Add" || goan.ExprString(se.X) != "Default" {
+				return true
+			}
+			name, ok := goan.StringVal(sf.TypesInfo, call.Args[0])
+			if !ok {
+				return true
+			}
+			if un, ok := ast.Unparen(call.Args[1]).(*ast.UnaryExpr); ok && un.Op == token.AND {
+				if t := sf.TypesInfo.TypeOf(un.X); t != nil {
+					registry[name] = goan.NamedName(t)
+				}
+			}
+			return true
+		})
+	}
+	if len(registry) < 20 {
+		c.Anchor(rule, "strfmt.Default.Add calls", fmt.Sprintf("only %d registrations found", len(registry)))
+		return
+	}
+	alias := map[string]string{"date-time": "datetime", "objectid": "bsonobjectid", "ObjectId": "bsonobjectid"}
+	fm := load.PkgVarValue(gen, "formatMapping")
+	have := map[string]bool{}
+	for _, outer := range goan.Rows(fm) {
+		for _, r := range goan.Rows(outer.Val) {
+			if k, ok := goan.StringVal(gen.TypesInfo, r.Key); ok {
+				have[k] = true
+			}
+		}
+	}
+	var regs []string
+	for k := range registry {
+		regs = append(regs, k)
+	}
+	sort.Strings(regs)
+	for _, k := range regs {
+		c.Check(have[k], rule, "generator.formatMapping › covers strfmt format "+k, "", "has a row",
+			"strfmt registers the format "+k+" (validated by go-openapi/validate at run time) but formatMapping has no row for it: such a property is generated as a plain string, without validation, and its format is lost when the models are scanned back")
+	}
+	for _, outer := range goan.Rows(fm) {
+		for _, r := range goan.Rows(outer.Val) {
+			k, _ := goan.StringVal(gen.TypesInfo, r.Key)
+			v, _ := goan.StringVal(gen.TypesInfo, r.Val)
+			if !strings.HasPrefix(v, "strfmt.") {
+				continue
+			}
+			reg := k
+			if a, ok := alias[k]; ok {
+				reg = a
+			}
+			want, known := registry[reg]
+			c.Check(known && "strfmt."+want == v, rule, "generator.formatMapping › "+k, c.posOf(gen, r.Key.Pos()), v+" is registered as "+reg,
+				fmt.Sprintf("format %q is mapped to %s but strfmt registers %q for strfmt.%s (known=%v): the generated model validates and scans back as another format", k, v, reg, want, known))
 		}
 	}
 }
